@@ -39,6 +39,11 @@ ENV_CONTEXTS = {
     "envdatatail": "10 Z = {e}\n20 DATA 7 , {lits} ,\n30 READ Y , X",
     "envtwice": "10 Z = {e}\n20 Y = {e}",
 }
+# the value reaches an array element as it reaches a scalar (the tool has a short cut for `target = converted function`)
+ELEM_CONTEXTS = {"elem": "10 Q ( 2 ) = {e}\n20 Z = Q ( 2 )", "elemvar": "10 DIM Q ( 5 ) : Q ( C ) = {e} : Z = Q ( C )", "elemlet": "10 LET Q ( 1 , 2 ) = {e}\n20 Z = Q ( 1 , 2 )"}
+SELEM_CONTEXTS = {"selem": "10 R$ ( 2 ) = {e}\n20 Z$ = R$ ( 2 )", "selemvar": "10 DIM R$ ( 5 ) : R$ ( C ) = {e} : Z$ = R$ ( C )"}
+ELEM_EXPRS = ["INT ( A )", "VAL ( A$ )", "INSTR ( 1 , A$ , B$ )", "INT ( A ) + 1", "INT ( INT ( A ) )", "ABS ( A )", "A + 1", "LEN ( A$ )", "- INT ( A )", "2"]
+SELEM_EXPRS = ["STR$ ( A )", "HEX$ ( A )", "STRING$ ( 3 , A$ )", "INKEY$", "LEFT$ ( A$ , 2 )", 'STR$ ( A ) + "X"', "CHR$ ( INT ( A ) )", '"L"']
 NUM_CONTEXTS = ["assign", "if", "ifelse", "ifstmt", "print", "forstart", "forlimit", "forstep", "index", "on"]
 BOOL_CONTEXTS = ["if", "ifelse", "ifstmt", "elseif"]
 STR_CONTEXTS = {"sassign": "10 Z$ = {e}", "sprint": "10 PRINT {e}"}
@@ -162,6 +167,12 @@ def family(tier):
     for e in list(shapes(0)) + list(shapes(1)) + [e for e in paren_family() if e.startswith("A + ") or e.startswith("- ")]:
         for c in ENV_CONTEXTS:
             jobs.append((c, e))
+    for e in ELEM_EXPRS:
+        for c in ELEM_CONTEXTS:
+            jobs.append((c, e))
+    for e in SELEM_EXPRS:
+        for c in SELEM_CONTEXTS:
+            jobs.append((c, e))
     for e in rel_family():
         for c in BOOL_CONTEXTS:
             jobs.append((c, e))
@@ -182,6 +193,8 @@ def library():
 
 
 def source_for(ctxname, e):
+    if ctxname in ELEM_CONTEXTS or ctxname in SELEM_CONTEXTS:
+        return (ELEM_CONTEXTS.get(ctxname) or SELEM_CONTEXTS[ctxname]).format(e=e)
     if ctxname in ENV_CONTEXTS:
         lits = [t for t in e.split(" ") if re.fullmatch(r"[0-9.][0-9.]*(E[+-]?[0-9]+)?|&H[0-9A-F]+", t)] or ["2"]
         return ENV_CONTEXTS[ctxname].format(e=e, lits=" , ".join(dict.fromkeys(lits)))
@@ -473,6 +486,11 @@ def run(tier):
     contracts.check_hex_digit(cctx, _lib)
     contracts.check_val(cctx, _lib)
     contracts.check_hex_length(cctx, _lib)
+    # INSTR and STRING$ (part of "the numeric and string built-in functions"): the C20 obligations on the library text
+    from vf.props import c20 as _c20
+
+    _c20.check_instr(cctx, _lib, 3)
+    _c20.check_string(cctx, _lib, 3, 4)
     ctx.bounds["contracts_discharged"] = ["ecb_int = floor (|v| <= 1e5, not within 1e-9 below an integer)", "_ecb_hex_digit = hex digit 0..15", "ecb_hex: number of digits for 0..65535"]
     ctx.add_solver_stats(smt.STATS.export())
     ctx.extra["solver"] = {"z3": smt.z3_version()}
